@@ -119,51 +119,54 @@ theorem decode_rotation (T K j k : Int) (hT : 1 ≤ T) (hK : 1 ≤ K)
   rw [Int.add_comm, Int.add_mul_ediv_right _ _ (by omega)]
   rw [Int.ediv_eq_zero_of_lt hj0 hj]; omega
 
-/-- **The stored label is the candidate's template**, through `loader.align_multi_templates`. -/
-theorem decode_label_loader (T K j k r0 : Int) (hT : 1 ≤ T) (hK : 1 ≤ K)
+theorem imod_small (a m : Int) (h0 : 0 ≤ a) (h : a < m) : Py.imod a m = a := by
+  unfold Py.imod
+  rw [Int.fmod_eq_emod_of_nonneg _ (by omega)]
+  exact Int.emod_eq_of_lt h0 h
+
+theorem imod_candidate (T j k : Int) (hj0 : 0 ≤ j) (hj : j < T) : Py.imod (k * T + j) T = j := by
+  unfold Py.imod
+  rw [Int.fmod_eq_emod_of_nonneg _ (by omega)]
+  rw [Int.add_comm, Int.add_mul_emod_self_right, Int.emod_eq_of_lt hj0 hj]
+
+/-- **The stored label is the candidate's template**, through `loader.align_multi_templates`
+(the reduction modulo `T` happens before the `uint8` narrowing; at most 256 templates). -/
+theorem decode_label_loader (T K j k r0 : Int) (hT : 1 ≤ T) (hT256 : T ≤ 256) (hK : 1 ≤ K)
     (hj0 : 0 ≤ j) (hj : j < T) (hk0 : 0 ≤ k) (hk : k < K) :
     (do let rem ← loaderRemainder true K T r0; reduceLabel (candIdx T K j k) rem) = .ok j := by
-  have hr := candIdx_range T K j k hT hK hj0 hj hk0 hk
-  unfold loaderRemainder reduceLabel candIdx at *
-  simp only [candidateRotationMajor, if_true] at *
+  have h256 : Py.imod j 256 = j := imod_small j 256 hj0 (by omega)
+  have hc := imod_candidate T j k hj0 hj
+  unfold loaderRemainder reduceLabel candIdx
+  simp only [candidateRotationMajor, if_true]
   simp only [bind, Except.bind, pure, Except.pure]
   by_cases hK1 : K > 1
   · simp only [hK1, and_true, if_true]
-    split
-    · unfold Py.imod
-      rw [Int.fmod_eq_emod_of_nonneg _ (by omega)]
-      rw [Int.add_comm, Int.add_mul_emod_self_right, Int.emod_eq_of_lt hj0 hj]
-    · have : T = 1 := by omega
-      subst this
-      have : j = 0 := by omega
-      subst this
-      omega
+    have : T ≥ 1 := hT
+    simp only [this, if_true, hc, h256]
   · have : K = 1 := by omega
     subst this
     have : k = 0 := by omega
     subst this
-    simp
+    simp [h256]
 
 /-- The same through `LoaderGroup.align_multi_templates` (`has_rotation = (K > 1)`). -/
-theorem decode_label_group (T K j k : Int) (hT : 1 ≤ T) (hK : 1 ≤ K)
+theorem decode_label_group (T K j k : Int) (hT : 1 ≤ T) (hT256 : T ≤ 256) (hK : 1 ≤ K)
     (hj0 : 0 ≤ j) (hj : j < T) (hk0 : 0 ≤ k) (hk : k < K) :
     reduceLabel (candIdx T K j k) (groupRemainder (decide (K > 1)) T) = .ok j := by
-  have hr := candIdx_range T K j k hT hK hj0 hj hk0 hk
-  unfold groupRemainder reduceLabel candIdx at *
-  simp only [candidateRotationMajor, if_true] at *
+  have h256 : Py.imod j 256 = j := imod_small j 256 hj0 (by omega)
+  have hc := imod_candidate T j k hj0 hj
+  unfold groupRemainder reduceLabel candIdx
+  simp only [candidateRotationMajor, if_true]
   simp only [bind, Except.bind, pure, Except.pure]
   by_cases hK1 : K > 1
   · simp only [hK1, decide_true, if_true]
-    split
-    · unfold Py.imod
-      rw [Int.fmod_eq_emod_of_nonneg _ (by omega)]
-      rw [Int.add_comm, Int.add_mul_emod_self_right, Int.emod_eq_of_lt hj0 hj]
-    · omega
+    have : T ≥ 1 := hT
+    simp only [this, if_true, hc, h256]
   · have : K = 1 := by omega
     subst this
     have : k = 0 := by omega
     subst this
-    simp
+    simp [h256]
 
 /-- Labels below 256 survive the `uint8` cast (`astype(np.uint8)` wraps modulo 256). -/
 theorem label_fits_uint8 (j T : Int) (hj0 : 0 ≤ j) (hj : j < T) (hT : T ≤ 256) : j % 256 = j := by
